@@ -74,6 +74,7 @@ func init() {
 func maxprog(h *harnessSpec) *harnessSpec { h.maximalProgress = true; return h }
 
 var twoCallers *harnessSpec
+var orchAssume, orchOutside []string
 
 func init() {
 	pkgRC := modulePath + "/lambda/rapidcore"
@@ -118,13 +119,13 @@ func withD(hs []*harnessSpec, d int, maxPaths int) []*harnessSpec {
 func init() {
 	pkgRC := modulePath + "/lambda/rapidcore"
 	pkgRapid := modulePath + "/lambda/rapid"
-	orchAssume := []string{
+	orchAssume = []string{
 		"compositions: real rapidContext / registration service / flows / rendering / Runtime+Extensions API handler bodies / middleware (and, in the FULL harnesses, the real rapidcore.Server and SandboxContext) executed from go/ssa; fake supervisor, scripted runtime/extension processes and recording writers are harness code",
 		"time is a logical clock; timers fire only when no thread can run (maximal progress)",
 		"delay-bounded schedules: at most D deviations from the deterministic round-robin non-preemptive scheduler; context switches only at synchronisation operations",
 		"identifiers, ARN and trace header are concrete; event and response payloads are symbolic byte sequences of any length up to the limit",
 	}
-	orchOutside := []string{"real sockets / HTTP framing / chi routing", "real processes and signals (fake supervisor: Kill and Terminate make the process exit and post its event)", "schedules needing more than D delays", "more extensions / invocations than the harness instantiates"}
+	orchOutside = []string{"real sockets / HTTP framing / chi routing", "real processes and signals (fake supervisor: Kill and Terminate make the process exit and post its event)", "schedules needing more than D delays", "more extensions / invocations than the harness instantiates"}
 
 	c03 := []*harnessSpec{
 		orch(pkgRapid, "VerifC03Init0", 2, "init + first invocation, no extensions", "done"),
@@ -175,6 +176,7 @@ func init() {
 		srvSeq("VerifC01Sequence1", 2, "Server.Invoke against the stub sandbox incl. stall", "timeout"),
 		expiry(orch(pkgRC, "VerifC05ExpiryRaceStub", 3, "stub sandbox, the function-timeout timer may fire at ANY point of two healthy invocations (response-versus-expiry): each ends with its response or the timeout outcome and never disturbs the next one", "expiry-won", "response-won")),
 		orch(pkgRC, "VerifFullRace2", 2, "FULL stack, timer may fire at any point of two healthy invocations after init", "expiry-won", "respond", "scenario-done"),
+		expiry(orch(pkgRC, "VerifFullRaceInit2", 1, "FULL stack, timer may fire at any point INCLUDING the lazy initialisation: a timed-out invocation is never dispatched behind its reset (the next runtime gets the next event)", "expiry-before-dispatch", "respond", "scenario-done")),
 	}
 	checkRegistry = append(checkRegistry, &checkSpec{id: "C05", level: "other", quick: c05, thorough: withD(c05, 3, 3000000), assume: orchAssume, outside: append(orchOutside, "wall-clock bound of the answer (logical time only)", "stalls during extension registration / runtime init (see C03 harness for the barrier)")})
 
@@ -301,6 +303,35 @@ func init() {
 			"'already exited' means the supervisor has observed the exit (termination channel closed); while a natural exit races with a request, either documented answer is accepted",
 			"logical clock; Kill's deadline timer fires at quiescence"},
 		outside: []string{"the real kernel (fork/exec failures, pid reuse, zombies of grand-children, signals other than TERM/KILL sent by the supervisor)", "Stop / Freeze / Thaw", "more than 2 processes or 3 requests", "counterexamples are confirmed by pinned re-execution in the engine only (a native replay would need real processes)"}})
+}
+
+func init() {
+	pkgRC := modulePath + "/lambda/rapidcore"
+	c07 := []*harnessSpec{
+		orch(pkgRC, "VerifC07Runtime2", 1, "FULL stack, 3 invocations: the first runtime executes EVERY script of 2 calls over {next, response(in-flight), response(bogus id), error, init/error, exit, stall, restore/next, restore/error} and then behaves; later generations healthy", "rt-exit", "rt-stall", "timeout", "runtime-body", "platform-body", "faulty-generations-gone", "done"),
+		orch(pkgRC, "VerifC07Ext2", 1, "FULL stack, 3 invocations: the first external extension executes EVERY script of 2 calls over {register, next, init/error, exit/error, exit process, stall} and then behaves; runtime healthy", "ext-exit", "ext-stall", "runtime-body", "done"),
+		orch(pkgRC, "VerifC07Both11", 1, "runtime and extension each make one arbitrary call first", "done"),
+		orch(pkgRC, "VerifC07Both22", 0, "runtime and extension scripts of 2 calls each (base schedule)", "done"),
+		orch(pkgRC, "VerifC07Runtime2ThenStall", 1, "two consecutive faulty generations: script of 2 calls, then a runtime that stalls, then healthy ones; 4 invocations", "faulty-generations-gone", "done"),
+		orch(pkgRC, "VerifC07Runtime2ThenExit", 0, "as above, the second generation exits", "faulty-generations-gone", "done"),
+		orch(pkgRC, "VerifFullStallThenStall", 1, "two consecutive timeouts (late exit notifications of the old generation)", "timeout", "scenario-done"),
+	}
+	c07t := []*harnessSpec{
+		orch(pkgRC, "VerifC07Runtime3", 1, "runtime scripts of 3 calls", "done"),
+		orch(pkgRC, "VerifC07Runtime2", 2, "runtime scripts of 2 calls, <= 2 delays", "done"),
+		orch(pkgRC, "VerifC07Ext3", 1, "extension scripts of 3 calls", "done"),
+		orch(pkgRC, "VerifC07Both22", 1, "2+2 calls, <= 1 delay", "done"),
+		orch(pkgRC, "VerifC07Runtime2ThenStall", 2, "", "done"),
+		orch(pkgRC, "VerifC07Runtime2ThenExit", 2, "", "done"),
+		orch(pkgRC, "VerifFullStallThenStall", 3, "", "scenario-done"),
+		expiry(orch(pkgRC, "VerifFullRaceInit2", 2, "expiry at any point including init", "scenario-done")),
+	}
+	for _, h := range c07t {
+		h.maxPaths = 1500000
+	}
+	checkRegistry = append(checkRegistry, &checkSpec{id: "C07", level: "other", quick: c07, thorough: c07t,
+		assume: append([]string{"panics of the code under test (log.Panic included) and deadlocks at quiescence are violations reported by the engine on every explored path", "'behaves again' = the faulty generation's processes are gone; the bound on the outcome is checked in logical time (function timeout 3000 ms + reset allowance 2000 ms)", "bodies: constant distinct payloads per call (byte-exactness for arbitrary content is C01's obligation)"}, orchAssume...),
+		outside: append([]string{"scripts longer than 3 calls, more than one extension, misuse in more than the first generation (the second generation only stalls or exits)", "wall-clock time, goroutine leaks, memory", "HTTP-level misuse (malformed requests, slow bodies): handlers are called with well-formed requests"}, orchOutside...)})
 }
 
 // expiry: timers are not restricted to quiescence (the harness switches them with verifRaceTimers)
